@@ -112,6 +112,7 @@ def validate(ctx, trace, mon, cfg="Trace_Market"):
     ev = vlib.read_ndjson(trace)
     if not ev:
         raise vlib.ToolError("empty trace " + trace)
+    ctx.m1_last_trace = trace
     # a round-trip event is judged together with its predecessor: never split between them
     nparts = max(1, min(PAR, len(ev) // 4000)) if len(ev) <= PAR * CHUNK else -(-len(ev) // CHUNK)
     size = -(-len(ev) // nparts)
@@ -160,6 +161,8 @@ def validate(ctx, trace, mon, cfg="Trace_Market"):
                 x["event"] = ev[a + x["i"] - 1]
                 ctx.drift_first = x
         fails += [(a + x["i"] - 1, x["mon"]) for x in f]
+        ctx.m1_drift_idx = getattr(ctx, "m1_drift_idx", {})
+        ctx.m1_drift_idx.setdefault(trace, set()).update(a + x["i"] - 1 for x in d)
         if p != trace:
             os.remove(p)
     return ev, fails
